@@ -74,7 +74,7 @@ _cache = {}
 # table (the reference model stays cached).  Short-lived, equal-but-not-identical models of
 # different tables are what exposes state keyed on the identity of a model (id() reuse after
 # garbage collection) or shared between all models (class attributes, module-level caches).
-CHURN = 3
+CHURN = 2
 _lookups = [0]
 
 
